@@ -124,6 +124,41 @@ def mcopy(m):
     return n
 
 
+def mirror(obj, src, memo=None):
+    """Model of a copy ``obj`` of the object modelled by ``src``.
+
+    Across the copy boundary the model assumes full independence (that is
+    what V1 then checks).  *Inside* the copy the alias structure is not
+    something the properties specify (``copy.deepcopy`` keeps ``c.meta is
+    c.region1.meta`` for ``c = a | b``, ``Region.copy`` does not), so it is
+    mirrored from the actual object: sub-objects that are identical in the
+    copy get one model node."""
+    memo = {} if memo is None else memo
+    if id(obj) in memo:
+        return memo[id(obj)]
+    n = MRegion(src.cls, src.tok)
+    memo[id(obj)] = n
+    n.eq_unknown = src.eq_unknown
+    n.tainted = set(src.tainted)
+    for f in ('meta', 'visual'):
+        d = getattr(obj, f, None)
+        sm = getattr(src, f)
+        if id(d) in memo:
+            md = memo[id(d)]
+        else:
+            md = MDict(f, _vcopy(sm.d))
+            memo[id(d)] = md
+        setattr(n, f, md)
+    if src.compound:
+        n.op = src.op
+        try:
+            n.r1 = mirror(obj.region1, src.r1, memo)
+            n.r2 = mirror(obj.region2, src.r2, memo)
+        except Exception:
+            n.r1, n.r2 = mcopy(src.r1), mcopy(src.r2)
+    return n
+
+
 def _vcopy(d):
     return {k: copy.deepcopy(v) for k, v in d.items()}
 
@@ -682,13 +717,13 @@ class Machine:
                            f'raised {exc!r}', cls=S.model.cls)
             self.ev(src=a, how=how, outcome='raise')
             return
-        m = mcopy(S.model)
+        m = mirror(obj, S.model)
         self._copy_checks(how, a, obj, m, ())
         i = self.add_slot('region', obj, m)
         self.ev(slot=i, src=a, how=how, cls=S.model.cls)
         self.state('copy', how, S.model.cls)
         self.check_unchanged({id(m)}, 'V1-independence', f'{how}({a})')
-        self.probe_copy(i, rng)
+        self.probe_copy(i, rng, src=a)
 
     def op_copy_changes(self, op, rng):
         a = self.pick(op['s'], lambda s: s.kind == 'region')
@@ -753,6 +788,19 @@ class Machine:
         if S.model.compound and ('meta' not in chosen or
                                  'visual' not in chosen):
             pass
+        # re-derive the model from the actual copy (internal alias structure
+        # mirrored, see ``mirror``) and apply the named changes to it
+        planned = m
+        m = mirror(obj, S.model)
+        for f in changes:
+            if f in ('meta', 'visual'):
+                setattr(m, f, getattr(planned, f))
+            elif f == 'region1':
+                m.r1 = planned.r1
+            elif f == 'region2':
+                m.r2 = planned.r2
+            else:
+                m.tok[f] = planned.tok[f]
         self._copy_checks(f'copy(**{sorted(changes)})', a, obj, m,
                           set(changes))
         # the named fields hold exactly what was passed
@@ -770,14 +818,16 @@ class Machine:
         self.state('copy_changes', S.model.cls, tuple(sorted(changes)))
         self.check_unchanged({id(m)}, 'V1-independence',
                              f'copy({a}, **{sorted(changes)})')
-        self.probe_copy(i, rng)
+        self.probe_copy(i, rng, src=a)
 
-    def probe_copy(self, i, rng):
-        """Right after a copy was made: edit the copy in place through the
-        objects it holds (0-2 edits); V1 then checks the original."""
+    def probe_copy(self, i, rng, src=None):
+        """Right after a copy was made: edit the copy - or the original - in
+        place through the objects it holds (0-2 edits); V1 then checks the
+        other one."""
         for _ in range(rng.weighted([(0, 4), (1, 4), (2, 2)])):
             self.cur_op = 'mutate'
-            self._mutate(i, rng, inplace_only=True)
+            t = src if (src is not None and rng.chance(0.4)) else i
+            self._mutate(t, rng, inplace_only=True)
         self.cur_op = self.plan['ops'][self.step]['op']
 
     def op_mutate(self, op, rng):
